@@ -129,6 +129,21 @@ def _genfunc(objs):
 		yield x
 
 
+class _IterClass(object):
+	"""an application object with __iter__ and __next__ (a one-shot iterator that is no generator)"""
+
+	def __init__(self, objs):
+		self.it = iter(list(objs))
+
+	def __iter__(self):
+		return self
+
+	def __next__(self):
+		return next(self.it)
+
+	next = __next__
+
+
 def _via(t, via, objs):
 	"""(11) the same pieces handed over as another iterable type.  t = 'gen': one-shot iterators that Body documents ('any iterable returning bytes/unicode') and
 	recognises as generators (a generator function, a generator expression over zip, iter(list)); t = 'list': re-iterable containers that are neither list nor tuple"""
@@ -142,6 +157,22 @@ def _via(t, via, objs):
 			return (a for a, _ in zip(objs, range(len(objs))))
 		if via == 'nested':
 			return (y for x in [objs[:1], objs[1:]] for y in x)
+		# one-shot iterators that are neither generators nor list iterators (finding D64, repaired in /repo 73ea79c: buffered like a generator)
+		import itertools
+		if via == 'itertuple':
+			return iter(tuple(objs))
+		if via == 'map':
+			return map(lambda x: x, list(objs))
+		if via == 'chain':
+			return itertools.chain(objs[:1], objs[1:])
+		if via == 'filter':
+			return filter(lambda x: True, list(objs))
+		if via == 'reversed':
+			return reversed(list(objs)[::-1])
+		if via == 'islice':
+			return itertools.islice(list(objs) + [b'never sent'], len(objs))
+		if via == 'iterclass':
+			return _IterClass(objs)
 	if t == 'list':
 		if via == 'deque':
 			return collections.deque(objs)
@@ -963,6 +994,8 @@ def fd_obs(body):
 		return ['gen']
 	if hasattr(fd, 'fileno'):
 		return ['file', fd.tell()]
+	if hasattr(fd, '__next__') and not hasattr(fd, 'read'):
+		return ['gen']   # every one-shot iterator is a generator for the Body (repair D64, /repo 73ea79c)
 	return ['other:%s' % type(fd).__name__]
 
 
